@@ -5,3 +5,5 @@ export GOFLAGS=-mod=vendor GOPROXY=off GOSUMDB=off GOTOOLCHAIN=local
 mkdir -p ../bin ../out ../evidence
 go build -o ../bin/govc . || exit 2
 echo "govc built"
+# mutation generator for scripts/automut.py (standard library only; not needed by any check)
+(cd ../scripts/automut && GOFLAGS=-mod=mod go build -o ../../bin/automut . 2>/dev/null && echo "automut built") || true
